@@ -18,7 +18,8 @@ package dcs
 //@ func app/dcs.NewOptimizationDCSAdapter
 //@   ensures C20.nonnil [C20]: result != nil
 //@ func app/dcs.NewOptimizationClusterAdapter
-//@   requires c20 [safety]: cluster != nil && clusterOK(cluster) && (forall k string :: has(clusterState, k) ==> clusterState[k] != nil && regd(cluster, k))
-//@   ensures C20.adapter [C20]: result != nil && adapterOK(result) && result.clusterState == clusterState && result.cluster == cluster
+//@   requires c20a [safety]: cluster != nil && clusterOK(cluster)
+//@   requires c20c [safety]: forall k string :: has(clusterState, k) ==> clusterState[k] != nil && regd(cluster, k)
+//@   ensures C20.adapter [C20]: result != nil && adapterOK(result) && result.clusterState == clusterState && result.cluster == cluster && result.master == master
 //@ func (*app/dcs.OptimizationClusterAdapter).GetState
 //@   ensures C20.unknown_is_zero [C20]: !has(ocs.clusterState, hostname) ==> result.SlaveState == nil && result.ReplicationSettings == nil && !result.IsMaster
